@@ -281,11 +281,41 @@ fn proto(args: &[&str]) -> String {
     format!("{:x}", bevy_replicon::shared::protocol::verif::finish(hasher))
 }
 
+/// `vis <whitelist 0|1> <op;op;...>`: `s:e:b` set_visibility, `d:e` remove_despawned, `l` drain_lost,
+/// `u` update, `q:e` state code, `v:e` is_visible.
+fn vis(args: &[&str]) -> String {
+    use bevy_replicon::server::verif_hooks::visibility as hook;
+    let ent = |s: &str| Entity::from_raw(num(s) as u32);
+    let mut v = hook::new(args[0] == "1");
+    let mut out = Vec::new();
+    for op in args.get(1).copied().unwrap_or("").split(';').filter(|o| !o.is_empty()) {
+        let f: Vec<&str> = op.split(':').collect();
+        match f[0] {
+            "s" => v.set_visibility(ent(f[1]), f[2] == "1"),
+            "d" => hook::remove_despawned(&mut v, ent(f[1])),
+            "l" => {
+                let mut lost: Vec<u32> = hook::drain_lost(&mut v).iter().map(|e| e.index()).collect();
+                lost.sort();
+                out.push(format!(
+                    "l[{}]",
+                    lost.iter().map(|e| format!("{e:x}")).collect::<Vec<_>>().join(" ")
+                ));
+            }
+            "u" => hook::update(&mut v),
+            "q" => out.push(format!("{}", hook::state(&v, ent(f[1])))),
+            "v" => out.push(format!("{}", v.is_visible(ent(f[1])) as u8)),
+            _ => out.push("?".into()),
+        }
+    }
+    out.join(",")
+}
+
 fn handle(cmd: &str, args: &[&str]) -> String {
     match cmd {
         "ent_dec" => ent_dec(args),
         "ent_enc" => ent_enc(args),
         "tcmp" => tcmp(args),
+        "vis" => vis(args),
         "cond" => cond(args),
         "tcp" => tcp(args),
         "proto" => proto(args),
